@@ -241,13 +241,14 @@ pub fn ctor_inputs(k: usize, fl: &[f64]) -> Vec<f64> {
 }
 
 pub fn run(rep: &mut Report) {
-    let q = rep.quick();
+    let deep = !rep.quick();
+    let q = false;
     let leap = LeapTable::load().expect("leap").0;
     rep.bound("ulp_tolerance", ULPS);
     rep.rule = "epoch lattice EL(scale) (within +-10 500 years, windows at every scale's zero, J2000, UNIX zero, leap seconds) x 9 scales x ~35 accessors: duration-valued views exact against count + derived constant (MJD(1900-01-01) = 15 020 d, JD = MJD + 2 400 000.5 d, J2000 = 3 155 716 800 s, UNIX zero = 25 567 d, UTC via the leap table), float views within 8 ulp of the exact rational (of the value or of one second's worth); constructors from_mjd/jde/unix on the float lattice within the span, read back through the same view. Non-trivial = non-TAI scale or negative count.".into();
     rep.assumptions = vec!["views of ET/TDB source epochs take the real conversion to TAI as the instant (owned by C07); JDE in ET/TDB is checked as an exact affine function of the real ET/TDB duration".into()];
     for ts in SCALES {
-        let el = lattice::el(ts, if q { 2 } else { 16 }, if q { None } else { Some((-2, 40)) });
+        let el = lattice::el(ts, if deep { 128 } else { 16 }, Some((-2, 40)));
         sweep(rep, &format!("c17.views[{}]", scale_name(ts)), el.len() as u64, |i, out| j_views(ts, el[i as usize], &leap, out));
     }
     let fl = lattice::fl(!q);
